@@ -21,7 +21,12 @@ def numel(sh):
 
 def real_value(g, name, shape, avail, inputs):
     """A value for real input `name`: tensor (with batch inputs), number, or affine expression."""
-    r = g.rint((0, 5))
+    r = g.rint((0, 6))
+    if r == 6:
+        # affine, or only affine-looking (x + h(x), products of factors in one variable, non-additive reductions)
+        from vf.gen import near_affine
+
+        return near_affine(g, shape, avail)
     if r == 0 and shape == ():
         return ("pynum", g.pick([0.5, -0.25, 1.0]))
     if r <= 2:
